@@ -370,17 +370,17 @@ def normalise_tree(tree):
     return out
 
 
-def program_info(training_file, enc, coverage, prefixcount, ngram, alphabet_size, save_sensitive):
+def program_info(training_file, enc, coverage, prefixcount, ngram, alphabet_size, save_sensitive, multiword=False):
     return {'name': 'PCFG Trainer', 'version': '4.7', 'author': 'Matt Weir', 'contact': 'cweir@vt.edu',
             'rule_name': 'X', 'training_file': training_file, 'encoding': enc, 'comments': '',
             'save_sensitive': save_sensitive, 'prefixcount': prefixcount, 'ngram': ngram,
             'alphabet_size': alphabet_size,
             'alphabet': 'abcdefghijklmnopqrstuvwxyzABCDEFGHIJKLMNOPQRSTUVWXYZ0123456789!.*@-_$#<?',
-            'smoothing': 0.01, 'coverage': coverage, 'max_len': 21, 'multiword': False}
+            'smoothing': 0.01, 'coverage': coverage, 'max_len': 21, 'multiword': multiword or False}
 
 
 def train_inprocess(training_file, enc, rule_dir, coverage=0.6, prefixcount=False, ngram=4, alphabet_size=100,
-                    save_sensitive=False):
+                    save_sensitive=False, multiword=None):
     """run_trainer of the working tree, in-process, writing to rule_dir, with the
     three readers, the parser (its counters), every section list and the OMEN
     tables captured through module attributes (no repository change)."""
@@ -400,6 +400,7 @@ def train_inprocess(training_file, enc, rule_dir, coverage=0.6, prefixcount=Fals
         def __init__(self, *a, **k):
             super().__init__(*a, **k)
             self.verif_seq = []
+            self.verif_file = a[0] if a else k.get("filename")
             rec.readers.append(self)
 
         def read_password(self):
@@ -422,7 +423,7 @@ def train_inprocess(training_file, enc, rule_dir, coverage=0.6, prefixcount=Fals
                          "n": num_valid_passwords, "alphabet": pinfo['alphabet']}
         return o_save(omen_trainer, omen_keyspace, omen_levels_count, num_valid_passwords, base_directory, pinfo)
 
-    pinfo = program_info(training_file, enc, coverage, prefixcount, ngram, alphabet_size, save_sensitive)
+    pinfo = program_info(training_file, enc, coverage, prefixcount, ngram, alphabet_size, save_sensitive, multiword)
     PP.base_structure_creation, RT.TrainerFileInput, RT.PCFGPasswordParser = bsc, RecInput, mk_parser
     RT.AlphabetLookup, RT.save_omen_rules_to_disk = mk_al, save_omen
     try:
@@ -443,6 +444,9 @@ def train_inprocess(training_file, enc, rule_dir, coverage=0.6, prefixcount=Fals
     rec.save_sensitive = save_sensitive
     rec.tree = read_tree(rule_dir) if os.path.isdir(rule_dir) else {}
     rec.parser = rec.parsers[0] if rec.parsers else None
+    # the reader of the --multiword pre-training list (if any) is not one of the three passes over the training file
+    rec.multiword_reader = [r for r in rec.readers if multiword and getattr(r, "verif_file", None) == multiword]
+    rec.readers = [r for r in rec.readers if r not in rec.multiword_reader]
     rec.seqs = [list(r.verif_seq) for r in rec.readers]
     rec.n = rec.readers[0].num_passwords if rec.readers else 0
     rec.nerr = [r.num_encoding_errors for r in rec.readers]
@@ -452,7 +456,7 @@ def train_inprocess(training_file, enc, rule_dir, coverage=0.6, prefixcount=Fals
 
 
 def train_cli(code, training_file, name, enc, coverage=0.6, prefixcount=False, hashseed="0", ngram=4,
-              save_sensitive=False, timeout=300):
+              save_sensitive=False, timeout=300, multiword=None):
     """`trainer.py` of a scratch copy of the code tree as a subprocess."""
     env = common.subenv()
     env["PYTHONPATH"] = code
@@ -462,6 +466,8 @@ def train_cli(code, training_file, name, enc, coverage=0.6, prefixcount=False, h
         cmd.append("--prefixcount")
     if save_sensitive:
         cmd.append("--save_sensitive")
+    if multiword:
+        cmd += ["--multiword", multiword]
     r = subprocess.run(cmd, cwd=code, env=env, stdin=subprocess.DEVNULL, stdout=subprocess.PIPE,
                        stderr=subprocess.PIPE, timeout=timeout)
     d = os.path.join(code, "Rules", name)
